@@ -522,3 +522,404 @@ Proof.
     repeat match type of Hi with _ \/ _ => destruct Hi as [Hi|Hi] end; try contradiction; subst i; simpl in Hs; try discriminate; injection Hs as _ _ Ep; rewrite <- Ep in E;
     repeat match type of Hj with _ \/ _ => destruct Hj as [Hj|Hj] end; try contradiction; subst j; simpl in E; discriminate.
 Qed.
+
+(* ---- from_dict for every key style under which _get_decision finds each decision without consuming the dictionary --- *)
+Definition gcarry (infos : list dpinfo) (vt : value_type) (dd : dict) (l : list (addr * aval)) : Prop :=
+  forall e, In e l -> forall i, info_at infos (fst e) = Some i ->
+  get_decision (i_id i) (fst e) (i_name i) dd = (Some (DS (leaf1 infos vt e)), dd).
+
+Section ReadBack2.
+  Variables (infos : list dpinfo) (vt : value_type).
+  Hypothesis Hvt : vt <> VT_dna.
+  Notation ial := (ial_of vt).
+
+  Lemma readback2_both :
+    (forall s, wf s = true -> forall sd a pid dd, valid s sd = true -> agree infos (dps s a pid) a ->
+       gcarry infos vt dd (acts s a sd) -> (vt = VT_literal -> Forall lits_distinct (all_lits s)) ->
+       make_dna ial s a pid dd = Some (normalize sd, dd)) /\
+    (forall p, wf_p p = true -> forall x a pid dd, valid_p p x = true -> agree infos (dps_p p a pid) a ->
+       gcarry infos vt dd (acts_p p a x) -> (vt = VT_literal -> Forall lits_distinct (all_lits_p p)) ->
+       make_dna_p ial p a pid dd = Some (norm_p x, dd)).
+  Proof.
+    apply dspec_dpoint_ind.
+    - (* Space *)
+      intros es IH Hwf [ds] a pid dd Hv Hag Hc Hl. simpl in Hwf. simpl in Hv. apply forallb2_Forall2 in Hv.
+      rewrite make_dna_space.
+      assert (Hel : forall j e, nth_error es j = Some e -> agree infos (dps_p e (a ++ [j]) pid) (a ++ [j])).
+      { intros j e He. eapply agree_trans; [exact Hag | exists [j]; reflexivity |].
+        simpl. apply (agree_mapi _ (fun i e0 => dps_p e0 (a ++ [i]) pid) a es 0 j e); auto.
+        intros i e0 He0 x Hx. simpl in *. eapply (proj2 dps_prefix_both); eauto. }
+      assert (G : forall es' ds' i, Forall2 (fun e x => valid_p e x = true) es' ds' ->
+                  (forall j e x, nth_error es' j = Some e -> nth_error ds' j = Some x ->
+                                 make_dna_p ial e (a ++ [i + j]) pid dd = Some (norm_p x, dd)) ->
+                  space_loop ial a pid i es' dd = Some (map norm_p ds', dd)).
+      { induction es' as [|e es' IHe]; intros ds' i Hv' Hm; inversion Hv' as [|? x ? ds'' Hx Hds]; subst; simpl. reflexivity.
+        pose proof (Hm 0 e x eq_refl eq_refl) as H0. rewrite Nat.add_0_r in H0. rewrite H0.
+        rewrite (IHe ds'' (S i) Hds). reflexivity.
+        intros j e' x' He' Hx'. replace (S i + j) with (i + S j) by lia. apply (Hm (S j) e' x'); auto. }
+      rewrite (G es ds 0 Hv). reflexivity.
+      intros j e x He Hx. simpl.
+      rewrite Forall_forall in IH. rewrite forallb_forall in Hwf.
+      apply (IH e (nth_error_In _ _ He) (Hwf e (nth_error_In _ _ He)) x (a ++ [j]) pid dd); auto.
+      + clear - Hv He Hx. revert j He Hx. induction Hv; intros [|j] He Hx; simpl in *; try discriminate.
+        inv He; inv Hx; auto. eapply IHHv; eauto.
+      + intros e0 He0. apply Hc. simpl. apply in_concat. exists (acts_p e (a ++ [j]) x). split; auto.
+        apply (mapi2_nth_in _ _ _ (fun i e1 x1 => acts_p e1 (a ++ [i]) x1) es ds 0 j e x He Hx).
+      + intros E. specialize (Hl E). simpl in Hl. rewrite Forall_forall in *. intros l Hin. apply Hl.
+        apply in_concat. exists (all_lits_p e). split; auto. apply in_map. eapply nth_error_In; eauto.
+    - (* Choices *)
+      intros k cands dist srt [loc name] lits IH Hwf x a pid dd Hv Hag Hc Hl.
+      pose proof (shape_p _ x Hwf Hv) as Hs. cbv beta iota in Hs.
+      pose proof Hwf as Hwf0. apply wf_p_choices in Hwf as (Hk & Hn & Hdk & Hwc).
+      assert (Hlw : length lits = 0 \/ length lits = length cands).
+      { change (((1 <=? k) && (1 <=? length cands) && (negb dist || (k <=? length cands)) &&
+                 ((length lits =? 0) || (length lits =? length cands)) && forallb wf cands) = true) in Hwf0.
+        apply andb_true_iff in Hwf0 as [Hw _]. apply andb_true_iff in Hw as [_ Hw].
+        apply orb_true_iff in Hw as [Hw|Hw]; apply Nat.eqb_eq in Hw; auto. }
+      rewrite dps_p_choices_unfold in Hag. rewrite make_dna_p_choices.
+      (* one step of the loop *)
+      assert (Hstep : forall a' id' sub c sb,
+                c < length cands -> with_nth (fun s => valid s sb) false cands c = true ->
+                agree infos (single_block cands name lits a' id' sub) a' ->
+                gcarry infos vt dd ((a', AChoice c) :: with_nth (fun sc => acts sc (a' ++ [c]) sb) [] cands c) ->
+                get_decision id' a' name dd = (Some (DS (format_candidate vt (length cands) lits c (D VNone []))), dd) /\
+                with_nth (fun cand => make_dna ial cand (a' ++ [c]) (id' ++ [KCond c (length cands)]) dd) None cands c = Some (normalize sb, dd)).
+      { intros a' id' sub c sb Hcn Hvs Ha' Hc'. split.
+        - specialize (Hc' (a', AChoice c) (or_introl eq_refl) _ (eq_trans (Ha' a' (prefix_refl a')) (info_at_head _ _))).
+          cbn [fst snd i_id i_name] in Hc'. unfold leaf1 in Hc'. cbn [fst snd] in Hc'.
+          rewrite (Ha' a' (prefix_refl a')) in Hc'. unfold single_block in Hc'. rewrite info_at_head in Hc'.
+          cbn [i_kind] in Hc'. exact Hc'.
+        - rewrite with_nth_nth_error in *. destruct (nth_error cands c) as [sc|] eqn:E; [|discriminate].
+          rewrite forallb_forall in Hwc. eapply nth_error_Forall in IH; eauto.
+          apply (IH (Hwc sc (nth_error_In _ _ E))); auto.
+          + eapply agree_single_cand; eauto.
+          + intros e He. apply Hc'. right. exact He.
+          + intros Ev. specialize (Hl Ev). simpl in Hl. apply Forall_cons_iff in Hl as [_ Hl].
+            rewrite Forall_forall in *. intros l Hin. apply Hl. apply in_concat. exists (all_lits sc). split; auto.
+            apply in_map. eapply nth_error_In; eauto. }
+      assert (Hci : forall c, c < length cands ->
+                choice_index ial (length cands) lits (format_candidate vt (length cands) lits c (D VNone [])) = Some c).
+      { intros c Hcn. apply choice_index_format; auto. intros Ev. specialize (Hl Ev). simpl in Hl.
+        apply Forall_cons_iff in Hl as [Hl _]. exact Hl. }
+      assert (Hnd : forall c, match format_candidate vt (length cands) lits c (D VNone []) with LfDna _ => False | _ => True end).
+      { intros c. destruct vt; simpl; auto; try congruence; destruct (nth_error lits c); auto. }
+      destruct (k =? 1) eqn:Ek.
+      + destruct Hs as (c & sb & -> & Hn1). rewrite Hn1.
+        apply Nat.eqb_eq in Ek. subst k.
+        apply valid_p_choices in Hv as [_ [[_ Hbd] Hf]].
+        apply Forall_cons_iff in Hbd as [Hbd _]. apply Forall_cons_iff in Hf as [Hf _]. simpl in Hbd, Hf.
+        change (acts_p (Choices 1 cands dist srt (loc, name) lits) a (PChoices [(c, sb)])) with
+          ((a, AChoice c) :: with_nth (fun sc => acts sc (a ++ [c]) sb) [] cands c) in Hc.
+        destruct (Hstep a (pid ++ loc) None c sb Hbd Hf Hag Hc) as [Hg Hm].
+        simpl seq. rewrite choice_loop_cons. simpl negb. cbv zeta. cbv iota. rewrite Hg.
+        specialize (Hnd c). specialize (Hci c Hbd).
+        destruct (format_candidate vt (length cands) lits c (D VNone [])) eqn:Ef; try contradiction;
+          rewrite Hci, Hm; reflexivity.
+      + destruct Hs as (cs & -> & Hlen & Hn2). rewrite Hn2.
+        apply valid_p_choices in Hv as [_ [[_ Hbd] Hf]].
+        change (acts_p (Choices k cands dist srt (loc, name) lits) a (PChoices cs)) with
+          (if k =? 1 then match cs with [cs0] => (a, AChoice (fst cs0)) :: with_nth (fun sc => acts sc (a ++ [fst cs0]) (snd cs0)) [] cands (fst cs0) | _ => [] end else
+             concat (mapi (fun i (cs0 : nat * sdna) => (a ++ [i], AChoice (fst cs0)) :: with_nth (fun sc => acts sc ((a ++ [i]) ++ [fst cs0]) (snd cs0)) [] cands (fst cs0)) 0 cs)) in Hc.
+        rewrite Ek in Hc.
+        assert (G : forall (l : list (nat * sdna)) s0, s0 + length l = k ->
+                  (forall j cs0, nth_error l j = Some cs0 ->
+                      fst cs0 < length cands /\ with_nth (fun s => valid s (snd cs0)) false cands (fst cs0) = true /\
+                      gcarry infos vt dd ((a ++ [s0 + j], AChoice (fst cs0)) :: with_nth (fun sc => acts sc ((a ++ [s0 + j]) ++ [fst cs0]) (snd cs0)) [] cands (fst cs0))) ->
+                  choice_loop ial k cands name lits a (pid ++ loc) (seq s0 (length l)) dd =
+                  Some (map (fun cs0 => mk (VInt (Z.of_nat (fst cs0))) [normalize (snd cs0)]) l, dd)).
+        { induction l as [|[c sb] l IHl]; intros s0 Hs0 Hall. reflexivity.
+          destruct (Hall 0 (c, sb) eq_refl) as (Hcn & Hvs & Hcar). cbn [fst snd] in *. rewrite Nat.add_0_r in Hcar.
+          assert (Hs0k : s0 < k) by (simpl in Hs0; lia).
+          assert (Hblk : agree infos (single_block cands name lits (a ++ [s0]) ((pid ++ loc) ++ [KIdx s0]) (Some (s0, a, pid ++ loc))) (a ++ [s0])).
+          { eapply agree_trans; [exact Hag | exists [s0]; reflexivity |].
+            rewrite <- app_assoc.
+            apply (agree_map_seq (fun i => single_block cands name lits (a ++ [i]) (pid ++ loc ++ [KIdx i]) (Some (i, a, pid ++ loc))) a k 0 s0).
+            - intros i Hi y Hy. eapply single_block_prefix; eauto.
+            - lia. }
+          destruct (Hstep (a ++ [s0]) ((pid ++ loc) ++ [KIdx s0]) (Some (s0, a, pid ++ loc)) c sb Hcn Hvs Hblk Hcar) as [Hg Hm].
+          simpl length. simpl seq.
+          rewrite choice_loop_cons.
+          cbv zeta. rewrite Ek. simpl negb. cbv iota. rewrite Hg.
+          specialize (Hnd c). specialize (Hci c Hcn).
+          assert (IHl' : choice_loop ial k cands name lits a (pid ++ loc) (seq (S s0) (length l)) dd =
+                         Some (map (fun cs0 => mk (VInt (Z.of_nat (fst cs0))) [normalize (snd cs0)]) l, dd)).
+          { apply IHl. simpl in Hs0. lia. intros j cs0 Hj. replace (S s0 + j) with (s0 + S j) by lia. apply (Hall (S j) cs0 Hj). }
+          destruct (format_candidate vt (length cands) lits c (D VNone [])) eqn:Ef; try contradiction;
+            rewrite Hci, Hm, IHl'; reflexivity. }
+        replace (seq 0 k) with (seq 0 (length cs)) by (rewrite Hlen; reflexivity).
+        rewrite (G cs 0); [rewrite mk_none_many; [reflexivity | rewrite map_length; apply Nat.eqb_neq in Ek; lia] | simpl; auto |].
+        intros j [c sb] Hj. cbn [fst snd]. rewrite Forall_forall in Hbd, Hf.
+        assert (Hin : In (c, sb) cs) by (eapply nth_error_In; eauto).
+        split. apply (Hbd c). apply in_map_iff. exists (c, sb); auto.
+        split. apply (Hf (c, sb)); auto.
+        intros e He. apply Hc. apply in_concat.
+        exists ((a ++ [j], AChoice c) :: with_nth (fun sc => acts sc ((a ++ [j]) ++ [c]) sb) [] cands c). split; auto.
+        apply (mapi_nth_in _ _ (fun i (cs0 : nat * sdna) => (a ++ [i], AChoice (fst cs0)) :: with_nth (fun sc => acts sc ((a ++ [i]) ++ [fst cs0]) (snd cs0)) [] cands (fst cs0)) cs 0 j (c, sb) Hj).
+    - (* Float *)
+      intros lo hi [loc name] Hwf x a pid dd Hv Hag Hc Hl. destruct x; try discriminate.
+      specialize (Hc (a, AFlt f) (or_introl eq_refl) _ (eq_trans (Hag a (prefix_refl a)) (info_at_head _ _))).
+      cbn [fst snd i_id i_name] in Hc. unfold leaf1 in Hc. cbn [fst snd] in Hc.
+      rewrite (Hag a (prefix_refl a)) in Hc. simpl dps_p in Hc. rewrite info_at_head in Hc. cbn [i_kind] in Hc.
+      simpl make_dna_p. rewrite Hc. simpl in Hv. rewrite Hv. reflexivity.
+    - intros [loc name] Hwf x a pid dd Hv Hag Hc Hl. destruct x; try discriminate.
+      specialize (Hc (a, AStr s) (or_introl eq_refl) _ (eq_trans (Hag a (prefix_refl a)) (info_at_head _ _))).
+      cbn [fst snd i_id i_name] in Hc. unfold leaf1 in Hc. cbn [fst snd] in Hc.
+      rewrite (Hag a (prefix_refl a)) in Hc. simpl dps_p in Hc. rewrite info_at_head in Hc. cbn [i_kind] in Hc.
+      simpl make_dna_p. rewrite Hc. reflexivity.
+  Qed.
+End ReadBack2.
+(* ---- what to_dict stores, entry by entry ---------------------------------------------------------------------------- *)
+Definition ents_gen (infos : list dpinfo) (kt : key_type) (vt : value_type) (m : mc_key) (e : addr * dna) : list (dkey * dleaf) :=
+  match info_at infos (fst e) with
+  | None => []
+  | Some i =>
+    let k := key_of kt (i_id i) (i_name i) (fst e) in
+    match i_kind i with
+    | PKChoice n lits =>
+        match Geno.dvalue (snd e) with
+        | VInt z =>
+            let x := format_candidate vt n lits (Z.to_nat z) (snd e) in
+            match i_sub i with
+            | Some (_, pa, pid) =>
+                (if use_parent m then [(key_of kt pid (i_name i) pa, x)] else []) ++
+                (if needs_subchoice_key kt m (i_name i) then [(k, x)] else [])
+            | None => [(k, x)]
+            end
+        | _ => []
+        end
+    | _ => [(k, match vt with VT_dna => LfDna (snd e) | _ => LfV (Geno.dvalue (snd e)) end)]
+    end
+  end.
+Lemma putn_ents_gen : forall infos kt vt m d e, putn infos kt vt m d e = dputs (ents_gen infos kt vt m e) d.
+Proof.
+  intros. unfold putn, ents_gen. destruct (info_at infos (fst e)) as [i|]; [|reflexivity]. cbv zeta.
+  destruct (i_kind i); try reflexivity. destruct (Geno.dvalue (snd e)); try reflexivity.
+  destruct (i_sub i) as [[[idx pa] pid]|]; try reflexivity.
+  destruct (use_parent m), (needs_subchoice_key kt m (i_name i)); reflexivity.
+Qed.
+Lemma putns_ents_gen : forall infos kt vt m l d, putns infos kt vt m l d = dputs (flat_map (ents_gen infos kt vt m) l) d.
+Proof.
+  induction l as [|e l IH]; intros d. reflexivity.
+  rewrite putns_cons, putn_ents_gen. simpl flat_map. rewrite dputs_app. apply IH.
+Qed.
+
+Lemma own_entry_found : forall (ents : addr * dna -> list (dkey * dleaf)) L e k x pre,
+  NoDup (map fst L) -> In e L -> ents e = pre ++ [(k, x)] -> ~ In k (map fst pre) ->
+  (forall e' y, In e' L -> In (k, y) (ents e') -> fst e' = fst e) ->
+  dget (dputs (flat_map ents L) []) k = Some (DS x).
+Proof.
+  intros ents L e k x pre Hnd He Hents Hpre Hsep.
+  apply in_split in He as (L1 & L2 & EL). subst L. rewrite map_app in Hnd. simpl in Hnd.
+  pose proof (NoDup_remove_2 _ _ _ Hnd) as Hnot.
+  rewrite flat_map_app. simpl flat_map. rewrite Hents. rewrite <- !app_assoc. rewrite app_assoc.
+  change ([(k, x)] ++ flat_map ents L2) with ((k, x) :: flat_map ents L2).
+  apply dputs_once; auto.
+  - rewrite map_app, in_app_iff. intros [Hin|Hin]; auto.
+    apply in_map_iff in Hin as [[k' y] [Ek Hin]]. simpl in Ek. subst k'. apply in_flat_map in Hin as [e' [He' Hin]].
+    apply Hnot. apply in_or_app. left. rewrite <- (Hsep e' y); auto. apply in_map; auto. apply in_or_app; auto.
+  - intros Hin. apply in_map_iff in Hin as [[k' y] [Ek Hin]]. simpl in Ek. subst k'. apply in_flat_map in Hin as [e' [He' Hin]].
+    apply Hnot. apply in_or_app. right. rewrite <- (Hsep e' y); auto. apply in_map; auto. apply in_or_app; simpl; auto.
+Qed.
+
+Lemma Forall2_in_r : forall A B (R : A -> B -> Prop) l1 l2 y, Forall2 R l1 l2 -> In y l2 -> exists x, In x l1 /\ R x y.
+Proof. induction 1; intros Hin. inv Hin. destruct Hin as [->|Hin]. eexists; split; [left; reflexivity|auto]. destruct (IHForall2 Hin) as [x' [A1 A2]]. exists x'; split; [right|]; auto. Qed.
+
+(* the leaf stored for a node is the rendering of the decision *)
+Lemma node_leaf : forall infos vt (e : addr * dna) (ea : addr * aval) i, vt <> VT_dna ->
+  node_matches e ea -> info_at infos (fst ea) = Some i -> kind_ok i (snd ea) ->
+  match snd ea, i_kind i with
+  | AChoice c, PKChoice n lits => Geno.dvalue (snd e) = vint c /\ leaf1 infos vt ea = format_candidate vt n lits (Z.to_nat (Z.of_nat c)) (snd e)
+  | AFlt f, _ => leaf1 infos vt ea = LfV (Geno.dvalue (snd e))
+  | AStr s, _ => leaf1 infos vt ea = LfV (Geno.dvalue (snd e))
+  | _, _ => True
+  end.
+Proof.
+  intros infos vt [a' n0] [a av] i Hvt [Hf Hm] Hi Hk. simpl in *. subst a'. unfold leaf1. cbn [fst snd]. rewrite Hi.
+  unfold kind_ok in Hk. cbn [snd] in Hk. destruct av, (i_kind i); try contradiction.
+  - split; auto. rewrite Nat2Z.id. apply format_candidate_irrel; auto.
+  - rewrite Hm. reflexivity.
+  - rewrite Hm. reflexivity.
+Qed.
+
+Lemma info_at_some : forall infos a i, info_at infos a = Some i -> In i infos /\ i_addr i = a.
+Proof. intros infos a i H. unfold info_at in H. apply find_some in H as [H1 H2]. apply addr_eqb_eq in H2. auto. Qed.
+
+Section Stored.
+  Variables (q : quirks) (s : dspec) (sd : sdna) (kt : key_type) (vt : value_type) (m : mc_key) (b : bdna).
+  Notation infos := (decision_points s).
+  Hypothesis Hwf : wf s = true.
+  Hypothesis Hv : valid s sd = true.
+  Hypothesis Hvt : vt <> VT_dna.
+  Hypothesis Hb : bind q s (normalize sd) = Some b.
+  Hypothesis Hneeds : forall name, needs_subchoice_key kt m name = true.
+  Hypothesis Hown : forall i j, In i infos -> In j infos ->
+    key_of kt (i_id i) (i_name i) (i_addr i) = key_of kt (i_id j) (i_name j) (i_addr j) -> i_addr i = i_addr j.
+  Hypothesis Hpar : use_parent m = true -> forall i j idx pa pid, In i infos -> In j infos -> i_sub i = Some (idx, pa, pid) ->
+    key_of kt (i_id j) (i_name j) (i_addr j) <> key_of kt pid (i_name i) pa.
+
+  Lemma stored_own : forall ea, In ea (acts s [] sd) -> forall i, info_at infos (fst ea) = Some i ->
+    dget (to_dict infos kt vt m false b) (key_of kt (i_id i) (i_name i) (fst ea)) = Some (DS (leaf1 infos vt ea)).
+  Proof.
+    intros ea Hea i Hi.
+    rewrite (to_dict_nodes q s sd kt vt m b Hwf Hv Hb).
+    rewrite putns_ents_gen.
+    destruct (Forall2_in_r _ _ _ _ _ ea (proj1 nodes_acts_both s [] sd) Hea) as [e [He Hm]].
+    destruct (proj1 (acts_kinded2_both infos) s Hwf sd [] [] ea Hv (root_agree s) Hea) as (i' & H1 & H2 & H3 & H4).
+    rewrite Hi in H1. inv H1.
+    pose proof (node_leaf infos vt e ea i' Hvt Hm Hi H4) as Hleaf.
+    destruct Hm as [Hf Hm]. destruct (info_at_some _ _ _ Hi) as [Hin Haddr].
+    assert (HndL : NoDup (map fst (nodes s [] sd))).
+    { rewrite (Forall2_map_fst _ _ (proj1 nodes_acts_both s [] sd)). apply (proj1 acts_nodup_both). }
+    (* the entries of e end with its own entry *)
+    assert (Hents : exists pre x, ents_gen infos kt vt m e = pre ++ [(key_of kt (i_id i') (i_name i') (fst ea), x)] /\
+                                  x = leaf1 infos vt ea /\ ~ In (key_of kt (i_id i') (i_name i') (fst ea)) (map fst pre)).
+    { unfold ents_gen. rewrite Hf, Hi. cbv zeta. unfold kind_ok in H4.
+      destruct (snd ea) eqn:Es, (i_kind i') eqn:Ek; try contradiction.
+      - destruct Hleaf as [Hval Hl]. rewrite Hval. unfold vint.
+        destruct (i_sub i') as [[[idx pa] pid]|] eqn:Esub.
+        + rewrite Hneeds. eexists. eexists. split; [reflexivity|]. split; [symmetry; exact Hl|].
+          destruct (use_parent m) eqn:Eu; simpl; [|tauto]. intros [E|[]]. rewrite <- Haddr in E. symmetry in E. exact (Hpar eq_refl i' i' idx pa pid Hin Hin Esub E).
+        + exists []. eexists. split; [reflexivity|]. split; [symmetry; exact Hl|]. simpl; tauto.
+      - exists []. eexists. split; [reflexivity|]. split; [|simpl; tauto]. rewrite Hleaf. destruct vt; try reflexivity. congruence.
+      - exists []. eexists. split; [reflexivity|]. split; [|simpl; tauto]. rewrite Hleaf. destruct vt; try reflexivity. congruence. }
+    destruct Hents as (pre & x & Hents & Hx & Hpre). subst x.
+    eapply own_entry_found; eauto.
+    (* nobody else stores under this key *)
+    intros e' y He' Hiny. rename Hin into Hin0. rename Hiny into Hin. unfold ents_gen in Hin.
+    destruct (info_at infos (fst e')) as [i''|] eqn:Hi''; [|contradiction]. destruct (info_at_some _ _ _ Hi'') as [Hin'' Haddr''].
+    cbv zeta in Hin.
+    assert (Hcase : key_of kt (i_id i'') (i_name i'') (fst e') = key_of kt (i_id i') (i_name i') (fst ea) \/
+                    exists idx pa pid, use_parent m = true /\ i_sub i'' = Some (idx, pa, pid) /\ key_of kt pid (i_name i'') pa = key_of kt (i_id i') (i_name i') (fst ea)).
+    { destruct (i_kind i'').
+      - destruct (Geno.dvalue (snd e')); try contradiction. destruct (i_sub i'') as [[[idx pa] pid]|] eqn:Esub.
+        + apply in_app_or in Hin as [Hin|Hin].
+          * destruct (use_parent m) eqn:Eu; [|contradiction]. destruct Hin as [Hin|[]]. inv Hin. right. exists idx, pa, pid. auto.
+          * destruct (needs_subchoice_key kt m (i_name i'')); [|contradiction]. destruct Hin as [Hin|[]]. inv Hin. left. auto.
+        + destruct Hin as [Hin|[]]. inv Hin. left. auto.
+      - destruct Hin as [Hin|[]]. inv Hin. left. auto.
+      - destruct Hin as [Hin|[]]. inv Hin. left. auto. }
+    destruct Hcase as [E|(idx & pa & pid & Eu & Esub & E)].
+    - rewrite <- Haddr'', <- Haddr in E. rewrite Hf, <- Haddr, <- Haddr''. apply Hown; auto.
+    - exfalso. rewrite <- Haddr in E. symmetry in E. exact (Hpar Eu i'' i' idx pa pid Hin'' Hin0 Esub E).
+  Qed.
+End Stored.
+
+Lemma leaf1_not_none : forall infos vt ea i, info_at infos (fst ea) = Some i -> kind_ok i (snd ea) ->
+  leaf_is_none (leaf1 infos vt ea) = false.
+Proof.
+  intros infos vt [a av] i Hi Hk. unfold leaf1. cbn [fst snd] in *. rewrite Hi. unfold kind_ok in Hk. cbn [snd] in Hk.
+  destruct av, (i_kind i); try contradiction; auto. apply format_candidate_not_none.
+Qed.
+
+(* key_type = 'id', multi_choice_key = 'subchoice' or 'both' *)
+Theorem dict_roundtrip_id_both : forall q s sd vt m b, wf s = true -> valid s sd = true -> vt <> VT_dna -> m <> MC_parent ->
+  ids_ok s -> (vt = VT_literal -> Forall lits_distinct (all_lits s)) ->
+  bind q s (normalize sd) = Some b ->
+  from_dict (ial_of vt) q s (to_dict (decision_points s) KT_id vt m false b) = Some b.
+Proof.
+  intros q s sd vt m b Hwf Hv Hvt Hm [Hid Hpar] Hl Hb.
+  set (infos := decision_points s).
+  assert (Hg : gcarry infos vt (to_dict infos KT_id vt m false b) (acts s [] sd)).
+  { intros ea Hea i Hi.
+    destruct (proj1 (acts_kinded2_both infos) s Hwf sd [] [] ea Hv (root_agree s) Hea) as (i' & H1 & H2 & H3 & H4).
+    unfold infos in Hi, H1. rewrite Hi in H1. inv H1.
+    apply get_decision_found; [|eapply leaf1_not_none; eauto].
+    assert (Hn : forall name, needs_subchoice_key KT_id m name = true) by (intros name; destruct m; try reflexivity; congruence).
+    assert (Ho : forall i j, In i (decision_points s) -> In j (decision_points s) ->
+              key_of KT_id (i_id i) (i_name i) (i_addr i) = key_of KT_id (i_id j) (i_name j) (i_addr j) -> i_addr i = i_addr j).
+    { intros i j Hi' Hj E. simpl in E. inv E. f_equal. eapply (NoDup_map_inj _ _ i_id); eauto. }
+    assert (Hp : use_parent m = true -> forall i j idx pa pid, In i (decision_points s) -> In j (decision_points s) -> i_sub i = Some (idx, pa, pid) ->
+              key_of KT_id (i_id j) (i_name j) (i_addr j) <> key_of KT_id pid (i_name i) pa).
+    { intros _ i j idx pa pid Hi' Hj Hs E. simpl in E. inv E. exact (Hpar i j idx pa (i_id j) Hi' Hj Hs eq_refl). }
+    exact (stored_own q s sd KT_id vt m b Hwf Hv Hvt Hb Hn Ho Hp ea Hea i' Hi). }
+  unfold from_dict.
+  rewrite (proj1 (readback2_both infos vt Hvt) s Hwf sd [] [] _ Hv (root_agree s) Hg Hl). exact Hb.
+Qed.
+
+(* key_type = 'dna_spec' (keys are the decision point objects), multi_choice_key = 'subchoice' *)
+Lemma dputs_no_id : forall es d id, (forall e, In e es -> match fst e with DKId _ => False | _ => True end) ->
+  dget (dputs es d) (DKId id) = dget d (DKId id).
+Proof.
+  intros es d id H. apply dputs_other. intros Hin. apply in_map_iff in Hin as [e [E He]]. specialize (H e He). rewrite E in H. exact H.
+Qed.
+Theorem dict_roundtrip_spec : forall q s sd vt b, wf s = true -> valid s sd = true -> vt <> VT_dna ->
+  (vt = VT_literal -> Forall lits_distinct (all_lits s)) ->
+  bind q s (normalize sd) = Some b ->
+  from_dict (ial_of vt) q s (to_dict (decision_points s) KT_dna_spec vt MC_subchoice false b) = Some b.
+Proof.
+  intros q s sd vt b Hwf Hv Hvt Hl Hb.
+  set (infos := decision_points s).
+  assert (Hnoid : forall id, dget (to_dict infos KT_dna_spec vt MC_subchoice false b) (DKId id) = None).
+  { intros id. unfold infos. rewrite (to_dict_nodes q s sd KT_dna_spec vt MC_subchoice b Hwf Hv Hb), putns_ents_gen.
+    rewrite dputs_no_id. reflexivity.
+    intros [k x] Hin. apply in_flat_map in Hin as [e [_ Hin]]. unfold ents_gen in Hin.
+    destruct (info_at (decision_points s) (fst e)) as [i|]; [|contradiction]. cbv zeta in Hin. simpl key_of in Hin.
+    destruct (i_kind i).
+    - destruct (Geno.dvalue (snd e)); try contradiction. destruct (i_sub i) as [[[idx pa] pid]|].
+      + simpl in Hin. destruct Hin as [Hin|[]]. inv Hin. exact I.
+      + destruct Hin as [Hin|[]]. inv Hin. exact I.
+    - destruct Hin as [Hin|[]]. inv Hin. exact I.
+    - destruct Hin as [Hin|[]]. inv Hin. exact I. }
+  assert (Hg : gcarry infos vt (to_dict infos KT_dna_spec vt MC_subchoice false b) (acts s [] sd)).
+  { intros ea Hea i Hi.
+    destruct (proj1 (acts_kinded2_both infos) s Hwf sd [] [] ea Hv (root_agree s) Hea) as (i' & H1 & H2 & H3 & H4).
+    unfold infos in Hi, H1. rewrite Hi in H1. inv H1.
+    pose proof (stored_own q s sd KT_dna_spec vt MC_subchoice b Hwf Hv Hvt Hb (fun _ => eq_refl)) as Hst.
+    assert (Hs : dget (to_dict infos KT_dna_spec vt MC_subchoice false b) (DKSpec (fst ea)) = Some (DS (leaf1 infos vt ea))).
+    { apply (Hst ltac:(intros i j _ _ E; simpl in E; inv E; reflexivity) ltac:(intros E; discriminate) ea Hea i' Hi). }
+    unfold get_decision. rewrite Hnoid. rewrite Hs. simpl.
+    rewrite (leaf1_not_none infos vt ea i' Hi H4). reflexivity. }
+  unfold from_dict.
+  rewrite (proj1 (readback2_both infos vt Hvt) s Hwf sd [] [] _ Hv (root_agree s) Hg Hl). exact Hb.
+Qed.
+
+(* include_inactive_decisions=True keeps what was stored under the key of every decision point *)
+Lemma wi_step_own : forall kt m d res i, (forall name, needs_subchoice_key kt m name = true) ->
+  dget (wi_step kt m d res i) (key_of kt (i_id i) (i_name i) (i_addr i)) <> None.
+Proof.
+  intros kt m d res i Hn. unfold wi_step. destruct (i_sub i) as [[[idx pa] pid]|]; cbv zeta.
+  - rewrite Hn. rewrite dget_dset_same. discriminate.
+  - rewrite dget_dset_same. discriminate.
+Qed.
+Lemma with_inactive_own : forall infos kt m d i, (forall name, needs_subchoice_key kt m name = true) -> In i infos ->
+  dget (with_inactive infos kt m d) (key_of kt (i_id i) (i_name i) (i_addr i)) =
+  Some (dget_or_none d (key_of kt (i_id i) (i_name i) (i_addr i))).
+Proof.
+  intros infos kt m d i Hn Hin. rewrite with_inactive_fold.
+  assert (G : forall l res, holds_d d res -> In i l ->
+            dget (fold_left (wi_step kt m d) l res) (key_of kt (i_id i) (i_name i) (i_addr i)) <> None).
+  { induction l as [|i0 l IH]; intros res H Hi. inv Hi. simpl. destruct Hi as [->|Hi].
+    - apply (proj2 (wi_fold kt m d l _ (wi_step_holds _ _ d res i H))). apply wi_step_own; auto.
+    - apply IH; auto. apply wi_step_holds; auto. }
+  assert (H0 : holds_d d []) by (intros k v H; discriminate).
+  specialize (G infos [] H0 Hin).
+  destruct (dget (fold_left (wi_step kt m d) infos []) (key_of kt (i_id i) (i_name i) (i_addr i))) as [v|] eqn:E; [|contradiction].
+  f_equal. apply (proj1 (wi_fold kt m d infos [] H0)). exact E.
+Qed.
+
+Theorem dict_roundtrip_id_inactive : forall q s sd vt m b, wf s = true -> valid s sd = true -> vt <> VT_dna -> m <> MC_parent ->
+  ids_ok s -> (vt = VT_literal -> Forall lits_distinct (all_lits s)) ->
+  bind q s (normalize sd) = Some b ->
+  from_dict (ial_of vt) q s (to_dict (decision_points s) KT_id vt m true b) = Some b.
+Proof.
+  intros q s sd vt m b Hwf Hv Hvt Hm [Hid Hpar] Hl Hb.
+  set (infos := decision_points s).
+  assert (Hn : forall name, needs_subchoice_key KT_id m name = true) by (intros name; destruct m; try reflexivity; congruence).
+  assert (Ho : forall i j, In i (decision_points s) -> In j (decision_points s) ->
+            key_of KT_id (i_id i) (i_name i) (i_addr i) = key_of KT_id (i_id j) (i_name j) (i_addr j) -> i_addr i = i_addr j).
+  { intros i j Hi' Hj E. simpl in E. inv E. f_equal. eapply (NoDup_map_inj _ _ i_id); eauto. }
+  assert (Hp : use_parent m = true -> forall i j idx pa pid, In i (decision_points s) -> In j (decision_points s) -> i_sub i = Some (idx, pa, pid) ->
+            key_of KT_id (i_id j) (i_name j) (i_addr j) <> key_of KT_id pid (i_name i) pa).
+  { intros _ i j idx pa pid Hi' Hj Hs E. simpl in E. inv E. exact (Hpar i j idx pa (i_id j) Hi' Hj Hs eq_refl). }
+  assert (Hg : gcarry infos vt (to_dict infos KT_id vt m true b) (acts s [] sd)).
+  { intros ea Hea i Hi.
+    destruct (proj1 (acts_kinded2_both infos) s Hwf sd [] [] ea Hv (root_agree s) Hea) as (i' & H1 & H2 & H3 & H4).
+    unfold infos in Hi, H1. rewrite Hi in H1. inv H1.
+    destruct (info_at_some _ _ _ Hi) as [Hin Haddr].
+    apply get_decision_found; [|eapply leaf1_not_none; eauto].
+    pose proof (stored_own q s sd KT_id vt m b Hwf Hv Hvt Hb Hn Ho Hp ea Hea i' Hi) as Hst.
+    unfold to_dict in *. pose proof (with_inactive_own infos KT_id m (dump infos KT_id vt m b []) i' Hn Hin) as Hw.
+    simpl key_of in Hw, Hst. rewrite Hw. unfold dget_or_none. unfold infos. rewrite Hst. reflexivity. }
+  unfold from_dict.
+  rewrite (proj1 (readback2_both infos vt Hvt) s Hwf sd [] [] _ Hv (root_agree s) Hg Hl). exact Hb.
+Qed.
